@@ -109,6 +109,8 @@ impl ModuleStatus {
     where
         F: FnOnce(Self) -> Self,
     {
+        #[cfg(boa_verif)]
+        let from = self.verif_name();
         *self = f(std::mem::replace(
             self,
             ModuleStatus::Unlinked {
@@ -116,6 +118,22 @@ impl ModuleStatus {
                 source_text: SourceText::default(),
             },
         ));
+        #[cfg(boa_verif)]
+        crate::verif::module_event(std::ptr::from_ref(self) as usize, from, self.verif_name());
+    }
+
+    #[cfg(boa_verif)]
+    fn verif_name(&self) -> &'static str {
+        match self {
+            Self::Unlinked { .. } => "unlinked",
+            Self::Linking { .. } => "linking",
+            Self::PreLinked { .. } => "pre-linked",
+            Self::Linked { .. } => "linked",
+            Self::Evaluating { .. } => "evaluating",
+            Self::EvaluatingAsync { .. } => "evaluating-async",
+            Self::Evaluated { error: None, .. } => "evaluated",
+            Self::Evaluated { error: Some(_), .. } => "evaluated-error",
+        }
     }
 
     /// Gets the ancestor index of the current module within the dependency graph, or `None` if the
@@ -2022,6 +2040,12 @@ impl SourceTextModule {
             // 11. Return unused.
             Ok(())
         }
+    }
+
+    /// Address of the status cell: the id of this module in the recorded status events.
+    #[cfg(boa_verif)]
+    pub(crate) fn verif_status_id(&self) -> usize {
+        std::ptr::from_ref(&*self.status.borrow()) as usize
     }
 
     /// Gets the loaded modules of this module.
